@@ -110,6 +110,7 @@ func (g *GcsEmu) makeBucketListResults(ctx context.Context, baseUrl HttpBaseUrl,
 		g.log(nil, "failed to iterate")
 	}
 
+	verifYield("gcs.list.walked")
 	// Resolve the found items.
 	var items []*storage.Object
 	for _, item := range found {
